@@ -109,6 +109,8 @@ type Run struct {
 	ExitCodes  []int
 	Stalled    bool
 	StepLimit  bool
+	LastProgress int // step at which a job last started or ended, or mrp exited
+	progressSig  int
 	crashIdx   int
 	Output     []string // mrp stdout lines
 	outBuf     strings.Builder
@@ -522,6 +524,16 @@ func (r *Run) Execute() {
 		synctest.Wait()
 		for _, h := range r.StepHooks {
 			h()
+		}
+		// progress: a job started or ended, or an mrp incarnation exited
+		sig := len(r.Jobs)*3 + len(r.ExitCodes)*7
+		for _, j := range r.Jobs {
+			if j.EndSeq != 0 {
+				sig++
+			}
+		}
+		if sig != r.progressSig {
+			r.progressSig, r.LastProgress = sig, r.Steps
 		}
 		if r.Steps >= cfg.MaxSteps {
 			r.StepLimit = true
